@@ -5,28 +5,63 @@
 import Edn.Spec.Renders
 import Edn.Proofs.Fuel
 import Edn.Proofs.Scan
+import Edn.Proofs.CompleteIdentAux3
 
 namespace Edn.Proofs
 open Edn.Model Edn.Spec
 
+/-- `Reads` for an identifier token from the result of the identifier reader -/
+private theorem reads_of_readIdentifier (cfg : Cfg) (opts : Opts) (d : Nat) (a : Val) (tok : Bytes)
+    (ht : IdentTok tok)
+    (h : ∀ (rest : Bytes) (cl : List Call), TermD rest →
+      ∃ v, readIdentifier { cfg := cfg, opts := opts } { rest := tok ++ rest, calls := cl } =
+        .ok v { rest := rest, calls := cl } ∧ strip v = a) :
+    Reads cfg opts d a tok := by
+  intro dm rest cl f hts hf
+  obtain ⟨f', rfl⟩ : ∃ f', f = f' + 1 := ⟨f - 1, by omega⟩
+  rw [readValue_identTok _ f' d dm tok rest cl ht hts]
+  exact h rest cl (TermStart.termD hts)
+
 theorem reads_nil (cfg : Cfg) (opts : Opts) (d : Nat) : Reads cfg opts d (.nil hdr0) "nil".toUTF8.toList := by
-  sorry
+  rw [nil_bytes]
+  apply reads_of_readIdentifier _ _ _ _ _ identTok_nil
+  intro rest cl hr
+  rw [readIdentifier_plain _ _ rest cl hr identTok_nil (by decide) (by decide)]
+  simp only [strBytes_eq, nil_bytes, BEq.rfl, ↓reduceIte]
+  exact ⟨_, rfl, by simp [strip]⟩
 theorem reads_true (cfg : Cfg) (opts : Opts) (d : Nat) : Reads cfg opts d (.bool hdr0 true) "true".toUTF8.toList := by
-  sorry
+  rw [true_bytes]
+  apply reads_of_readIdentifier _ _ _ _ _ identTok_true
+  intro rest cl hr
+  rw [readIdentifier_plain _ _ rest cl hr identTok_true (by decide) (by decide)]
+  have h1 : (([0x74, 0x72, 0x75, 0x65] : Bytes) == [0x6E, 0x69, 0x6C]) = false := by decide
+  simp only [strBytes_eq, nil_bytes, true_bytes, h1, BEq.rfl, Bool.false_eq_true, ↓reduceIte]
+  exact ⟨_, rfl, by simp [strip]⟩
 theorem reads_false (cfg : Cfg) (opts : Opts) (d : Nat) : Reads cfg opts d (.bool hdr0 false) "false".toUTF8.toList := by
-  sorry
+  rw [false_bytes]
+  apply reads_of_readIdentifier _ _ _ _ _ identTok_false
+  intro rest cl hr
+  rw [readIdentifier_plain _ _ rest cl hr identTok_false (by decide) (by decide)]
+  have h1 : (([0x66, 0x61, 0x6C, 0x73, 0x65] : Bytes) == [0x6E, 0x69, 0x6C]) = false := by decide
+  have h2 : (([0x66, 0x61, 0x6C, 0x73, 0x65] : Bytes) == [0x74, 0x72, 0x75, 0x65]) = false := by decide
+  simp only [strBytes_eq, nil_bytes, true_bytes, false_bytes, h1, h2, BEq.rfl, Bool.false_eq_true, ↓reduceIte]
+  exact ⟨_, rfl, by simp [strip]⟩
 
 theorem reads_kw (cfg : Cfg) (opts : Opts) (d : Nat) (tok : Bytes) (ns : Option Bytes) (nm : Bytes)
     (h : IdentTok (0x3A :: tok)) (hc : tok.head? ≠ some 0x3A) (hsp : splitIdent tok = some (ns, nm))
     (hne : tok ≠ []) (hsl : tok ≠ [0x2F]) :
     Reads cfg opts d (.kw hdr0 ns nm) (0x3A :: tok) := by
-  sorry
+  apply reads_of_readIdentifier _ _ _ _ _ h
+  intro rest cl hr
+  exact ⟨_, readIdentifier_kw _ tok ns nm rest cl hr h hc hsp hne hsl, by simp [strip]⟩
 
 theorem reads_sym (cfg : Cfg) (opts : Opts) (d : Nat) (tok : Bytes) (ns : Option Bytes) (nm : Bytes)
     (h : IdentTok tok) (hc : tok.head? ≠ some 0x3A) (hsp : splitIdent tok = some (ns, nm))
     (hres : tok ≠ "nil".toUTF8.toList ∧ tok ≠ "true".toUTF8.toList ∧ tok ≠ "false".toUTF8.toList) :
     Reads cfg opts d (.sym hdr0 none ns nm) tok := by
-  sorry
+  apply reads_of_readIdentifier _ _ _ _ _ h
+  intro rest cl hr
+  exact ⟨_, readIdentifier_sym _ tok ns nm rest cl hr h hc hsp hres, by simp [strip]⟩
 
 /-- used by the tagged-element case: the identifier reader itself on a tag token followed by a
     delimiter byte -/
@@ -35,7 +70,7 @@ theorem readIdentifier_tag (ctx : Ctx) (tag : Bytes) (ns : Option Bytes) (nm : B
     (hres : tag ≠ "nil".toUTF8.toList ∧ tag ≠ "true".toUTF8.toList ∧ tag ≠ "false".toUTF8.toList)
     (hd : isDelim c = true) :
     ∃ h, readIdentifier ctx { rest := tag ++ c :: rest, calls := cl } =
-      .ok (.sym h none ns nm) { rest := c :: rest, calls := cl } := by
-  sorry
+      .ok (.sym h none ns nm) { rest := c :: rest, calls := cl } :=
+  ⟨_, readIdentifier_sym ctx tag ns nm (c :: rest) cl (.inr ⟨c, rest, rfl, hd⟩) ht hc hsp hres⟩
 
 end Edn.Proofs
